@@ -108,7 +108,7 @@ func diffLines(a, b string) string {
 }
 
 func TestPropConvergence(t *testing.T) {
-	sub := stats.NewSub("convergence-vs-fresh-gateway", "rapid: history of 2-10 events over two clusters (create/update with a new valid version: servers, disabled flags, policies, schemas incl. type changes and removals, feature-gate annotation added/changed/dropped, logging, serving cert / client CA / server names; delete; duplicate delivery; a version whose sync fails (unusable client CA / key pair stored past admission) with other fields changed too, later superseded by a valid one), optionally followed by an admission-race episode (a version claiming a name owned by the other cluster fails and is retried after newer versions were applied); oracle: fingerprint(live) == fingerprint(fresh controller with only the latest objects); non-trivial = a field is removed or restored between versions of a cluster, or a retry of a superseded version is delivered after a newer one; distinct by FNV-64 of the op trace")
+	sub := stats.NewSub("convergence-vs-fresh-gateway", "rapid: history of 2-10 events over two clusters (create/update with a new valid version: servers, disabled flags, policies, schemas incl. type changes and removals, feature-gate annotation added/changed/dropped, logging, serving cert / client CA / server names; one upsert in three takes annotations / schemas / servers / policies / serving material / logging back from an EARLIER version of the cluster exactly as they were; delete; duplicate delivery; a version whose sync fails (unusable client CA / key pair stored past admission) with other fields changed too, later superseded by a valid one), optionally followed by an admission-race episode (a version claiming a name owned by the other cluster fails and is retried after newer versions were applied); oracle: fingerprint(live) == fingerprint(fresh controller with only the latest objects); non-trivial = a field is removed or restored between versions of a cluster, or a retry of a superseded version is delivered after a newer one; distinct by FNV-64 of the op trace")
 	known := findings.Open(staleRetryFinding)
 	stats.Check(t, stats.N(1500, 8000), func(t *rapid.T) {
 		live := ctlbox.New()
@@ -117,6 +117,7 @@ func TestPropConvergence(t *testing.T) {
 		trace := ""
 		nt := false
 		unapplicable := map[string]bool{}
+		history := map[string][]*proxyv1alpha1.UpstreamCluster{} // every valid version ever applied, per cluster
 		sub.Eval()
 		upsert := func(t *rapid.T, label, name string) {
 			taken := claimed(stored, name)
@@ -128,6 +129,50 @@ func TestPropConvergence(t *testing.T) {
 			}
 			obj := genObj(t, label, name, free)
 			prev := stored[name]
+			if len(history[name]) > 0 && rapid.IntRange(0, 2).Draw(t, label+".restore") == 0 {
+				// parts of an EARLIER version of this cluster come back exactly as they were (set, removed, restored)
+				old := rapid.SampledFrom(history[name]).Draw(t, label+".restoreFrom").DeepCopy()
+				mask := rapid.IntRange(1, 63).Draw(t, label+".restoreMask")
+				if mask&1 != 0 {
+					obj.Annotations = old.Annotations
+				}
+				if mask&8 != 0 {
+					mask |= 2 | 4 // policies name schemas and endpoints: they come back together
+					obj.Spec.DispatchPolicies = old.Spec.DispatchPolicies
+				}
+				if mask&2 != 0 {
+					obj.Spec.FlowControl = old.Spec.FlowControl
+				}
+				if mask&4 != 0 {
+					obj.Spec.Servers = old.Spec.Servers
+					if mask&8 == 0 {
+						for i := range obj.Spec.DispatchPolicies {
+							obj.Spec.DispatchPolicies[i].UpstreamSubset = nil
+						}
+					}
+				}
+				if mask&2 != 0 && mask&8 == 0 {
+					for i := range obj.Spec.DispatchPolicies {
+						obj.Spec.DispatchPolicies[i].FlowControlSchemaName = ""
+					}
+				}
+				if mask&16 != 0 {
+					obj.Spec.SecureServing = old.Spec.SecureServing
+					var keep []string
+					for _, sn := range obj.Spec.SecureServing.ServerNames {
+						if !taken[strings.ToLower(sn)] {
+							keep = append(keep, sn)
+						}
+					}
+					obj.Spec.SecureServing.ServerNames = keep
+				}
+				if mask&32 != 0 {
+					obj.Spec.Logging = old.Spec.Logging
+				}
+				nt = true
+				sub.Class("parts-restored-from-an-earlier-version")
+			}
+			history[name] = append(history[name], obj)
 			res, err := live.Apply(obj)
 			trace += "upsert " + gen.ClusterString(obj) + "\n"
 			if err != nil || res.RequeueAfter > 0 {
